@@ -212,6 +212,60 @@ theorem he_jumpInner (t : Nat) : HE (jumpInner t) := by he_auto2
 set_option maxHeartbeats 100000 in
 theorem he_checkWhen (b : Bool) (k : Nat) : HE (checkWhen b k) := by he_auto2
 
+/-- the bytes `memSlice` hands out are a slice of the buffer -/
+theorem memSlice_len {off len : Nat} {s s1 : IState} {out : List Nat} (h : memSlice off len s = .ok out s1) :
+    s1 = s ∧ out.length ≤ s.mem.buffer.length := by
+  unfold memSlice memRes at h
+  split at h
+  · rename_i a heq
+    cases h
+    refine ⟨rfl, ?_⟩
+    unfold Memory.slice Memory.sliceRange at heq
+    split at heq
+    · split at heq
+      · cases heq
+        unfold Memory.readAt
+        rw [List.length_take, List.length_drop]
+        omega
+      · cases heq
+    · cases heq
+  · cases h
+  · cases h
+
+/-- every halt of `m` carries an output no longer than the memory buffer of the halting state -/
+def HL {α} (m : M α) : Prop := ∀ s r o s', m s = .halt r o s' → o.length ≤ s'.mem.buffer.length
+
+theorem HE.hl {α} {m : M α} (h : HE m) : HL m := fun s r o s' e => by rw [h s r o s' e]; exact Nat.zero_le _
+
+theorem hl_bind {α β} {m : M α} {f : α → M β} (h1 : HL m) (h2 : ∀ a, HL (f a)) : HL (m >>= f) := by
+  intro s r o s' h
+  change M.bind m f s = _ at h
+  unfold M.bind at h
+  cases hm : m s with
+  | ok a s1 => rw [hm] at h; exact h2 a s1 r o s' h
+  | halt r1 o1 s1 => rw [hm] at h; cases h; exact h1 s _ _ _ hm
+  | fault f => rw [hm] at h; cases h
+
+theorem hl_sliceOut (r : IResult) (off len : Nat) : HL (memSlice off len >>= fun out => (haltOut r out : M Unit)) := by
+  intro s r' o s' h
+  change M.bind (memSlice off len) _ s = _ at h
+  unfold M.bind at h
+  cases hm : memSlice off len s with
+  | ok out s1 =>
+    rw [hm] at h
+    obtain ⟨rfl, hl⟩ := memSlice_len hm
+    unfold haltOut at h
+    cases h
+    exact hl
+  | halt r1 o1 s1 => rw [hm] at h; cases h; rw [he_memSlice off len s _ _ _ hm]; exact Nat.zero_le _
+  | fault f => rw [hm] at h; cases h
+
+theorem hl_haltOutNil (r : IResult) : HL (haltOut r [] : M Unit) := by
+  intro s r' o s' h
+  unfold haltOut at h
+  cases h
+  exact Nat.zero_le _
+
 attribute [local irreducible] gasCharge getS check requireNonStatic requireEof requireInitEof requireSome assumeNotEof gasOrFail refund advancePc setEof popN popTop setTop push stackCall stackCallAdv asUsizeOrFail resizeMem memSlice memSliceRange memGetU256 memSetU256 memSetByte memSetData memCopy codeSlice codeByte jumpRel getEof loadEofCode haltWith haltOut faultWith modifyS liftMemWrite pop1 pop2 pop3 pop4 popAddress popTop1 popTop2 popTop3 readU16 readI16 jumpInner checkWhen
 
 syntax "he_auto3" : tactic
@@ -338,5 +392,101 @@ theorem he_jumpiI : HE jumpiI := by he_auto3
 set_option maxHeartbeats 100000 in
 theorem he_copyToMem (d : IState → List Nat) (g : M Unit) (hg : HE g) : HE (copyToMem d g) := by
   unfold copyToMem; he_auto3
+
+/-! ## RETURN / REVERT -/
+
+theorem hl_returnInner (r : IResult) : HL (returnInner r) := by
+  unfold returnInner
+  refine hl_bind (he_pop2).hl (fun x => ?_)
+  obtain ⟨offset, len⟩ := x
+  dsimp only
+  refine hl_bind (he_asUsizeOrFail _ _).hl (fun len' => ?_)
+  split
+  · refine hl_bind (he_asUsizeOrFail _ _).hl (fun off' => ?_)
+    refine hl_bind (he_resizeMem _ _).hl (fun _ => ?_)
+    exact hl_sliceOut r off' len'
+  · exact hl_haltOutNil r
+
+theorem hl_revertI : HL revertI := by
+  unfold revertI
+  exact hl_bind (he_check _).hl (fun _ => hl_returnInner _)
+
+/-! ## outcomes -/
+
+/-- every halt an outcome leads to, whatever the host answers, has an output within the memory buffer -/
+def OL (o : Outcome) : Prop :=
+  (∀ r out s', o = .pure (.halt r out s') → out.length ≤ s'.mem.buffer.length) ∧
+  (∀ op k resp r out s', o = .host op k → k resp = .halt r out s' → out.length ≤ s'.mem.buffer.length)
+
+theorem ol_pure_toDone {e : Exec Unit} (h : ∀ r o s', e = .halt r o s' → o.length ≤ s'.mem.buffer.length) :
+    OL (.pure e.toDone) := by
+  refine ⟨fun r out s' heq => ?_, fun op k resp r out s' heq => nomatch heq⟩
+  cases e with
+  | ok a s => cases heq
+  | halt r1 o1 s1 => cases heq; exact h _ _ _ rfl
+  | fault f => cases heq
+
+theorem ol_pure_toDoneAction {e : Exec Action} (h : ∀ r o s', e = .halt r o s' → o.length ≤ s'.mem.buffer.length) :
+    OL (.pure e.toDoneAction) := by
+  refine ⟨fun r out s' heq => ?_, fun op k resp r out s' heq => nomatch heq⟩
+  cases e with
+  | ok a s => cases heq
+  | halt r1 o1 s1 => cases heq; exact h _ _ _ rfl
+  | fault f => cases heq
+
+theorem ol_hostCall {β} (pre : M (HostOp × β)) (post : β → HostResp → M Unit) (s : IState) (h1 : HL pre)
+    (h2 : ∀ b r, HL (post b r)) : OL (hostCall pre post s) := by
+  unfold hostCall
+  cases hp : pre s with
+  | ok x s1 =>
+    obtain ⟨op, b⟩ := x
+    refine ⟨fun r out s' heq => (nomatch heq), fun op' k resp r out s' heq hk => ?_⟩
+    cases heq
+    dsimp only at hk
+    cases he : post b resp s1 with
+    | ok a s2 => rw [he] at hk; cases hk
+    | halt r1 o1 s2 => rw [he] at hk; cases hk; exact h2 b resp s1 _ _ _ he
+    | fault f => rw [he] at hk; cases hk
+  | halt r1 o1 s1 =>
+    refine ⟨fun r out s' heq => ?_, fun op k resp r out s' heq => nomatch heq⟩
+    cases heq; exact h1 s _ _ _ hp
+  | fault f => exact ⟨fun r out s' heq => (nomatch heq), fun op k resp r out s' heq => (nomatch heq)⟩
+
+theorem ol_hostCallAction {β} (pre : M (HostOp × β)) (post : β → HostResp → M Action) (s : IState) (h1 : HL pre)
+    (h2 : ∀ b r, HL (post b r)) : OL (hostCallAction pre post s) := by
+  unfold hostCallAction
+  cases hp : pre s with
+  | ok x s1 =>
+    obtain ⟨op, b⟩ := x
+    refine ⟨fun r out s' heq => (nomatch heq), fun op' k resp r out s' heq hk => ?_⟩
+    cases heq
+    dsimp only at hk
+    cases he : post b resp s1 with
+    | ok a s2 => rw [he] at hk; cases hk
+    | halt r1 o1 s2 => rw [he] at hk; cases hk; exact h2 b resp s1 _ _ _ he
+    | fault f => rw [he] at hk; cases hk
+  | halt r1 o1 s1 =>
+    refine ⟨fun r out s' heq => ?_, fun op k resp r out s' heq => nomatch heq⟩
+    cases heq; exact h1 s _ _ _ hp
+  | fault f => exact ⟨fun r out s' heq => (nomatch heq), fun op k resp r out s' heq => (nomatch heq)⟩
+
+theorem ol_hostCallOptAction {β} (pre : M (HostOp × β)) (post : β → HostResp → M (Option Action)) (s : IState)
+    (h1 : HL pre) (h2 : ∀ b r, HL (post b r)) : OL (hostCallOptAction pre post s) := by
+  unfold hostCallOptAction
+  cases hp : pre s with
+  | ok x s1 =>
+    obtain ⟨op, b⟩ := x
+    refine ⟨fun r out s' heq => (nomatch heq), fun op' k resp r out s' heq hk => ?_⟩
+    cases heq
+    dsimp only at hk
+    cases he : post b resp s1 with
+    | ok a s2 => rw [he] at hk; cases a <;> cases hk
+    | halt r1 o1 s2 => rw [he] at hk; cases hk; exact h2 b resp s1 _ _ _ he
+    | fault f => rw [he] at hk; cases hk
+  | halt r1 o1 s1 =>
+    refine ⟨fun r out s' heq => ?_, fun op k resp r out s' heq => nomatch heq⟩
+    cases heq; exact h1 s _ _ _ hp
+  | fault f => exact ⟨fun r out s' heq => (nomatch heq), fun op k resp r out s' heq => (nomatch heq)⟩
+
 
 end Revm.Proofs.EvmLink
